@@ -45,14 +45,22 @@ type hbtWorld struct {
 	e  *spine.EntityLocal
 	f  api.FeatureLocalInterface
 	hm api.HeartbeatManagerInterface
-	g0 int // goroutines before the heartbeat function was added
+	g0 int // goroutines before any heartbeat existed
+
+	attached bool // the entity is in the device's list (AddEntity called, RemoveEntity not since)
+	added    bool // AddFunctionType(heartbeat) has been called
 }
 
-func newHbtWorld(timeout time.Duration) *hbtWorld {
+// newHbtWorld: a device and an entity with a device-diagnosis server feature; attach = AddEntity is called at once
+// (otherwise it is an op of the history: the heartbeat may be started on an entity the device does not list).
+func newHbtWorld(timeout time.Duration, attach bool) *hbtWorld {
 	w := &hbtWorld{}
 	w.l = spine.NewDeviceLocal("b", "m", "s", "c", "HEMS", model.DeviceTypeTypeEnergyManagementSystem, model.NetworkManagementFeatureSetTypeSmart)
 	w.e = spine.NewEntityLocal(w.l, model.EntityTypeTypeCEM, spine.NewAddressEntityType([]uint{1}), timeout)
-	w.l.AddEntity(w.e)
+	if attach {
+		w.l.AddEntity(w.e)
+		w.attached = true
+	}
 	w.f = w.e.GetOrAddFeature(model.FeatureTypeTypeDeviceDiagnosis, model.RoleTypeServer)
 	w.hm = w.e.HeartbeatManager()
 	return w
@@ -226,6 +234,8 @@ func (x *hbtRun) compare(op, kind string, quiescentWant int, lines ...string) bo
 			}
 		}
 		switch {
+		case strings.HasPrefix(op, "removeentity") && (run == 1 || n > 0):
+			surplus("C16/heartbeat-survives-remove-entity", fmt.Sprintf("after RemoveEntity returned (%s) IsHeartbeatRunning=%d and %d heartbeat goroutine(s) keep running", kind, run, n))
 		case n > 1:
 			surplus("C16/two-streams-without-overlapping-starts", fmt.Sprintf("%d heartbeat goroutines are running with no start or stop in flight (IsHeartbeatRunning=%d)", n, run))
 		case run == 1 && n == 0:
@@ -272,20 +282,36 @@ func (x *hbtRun) exec(op string) bool {
 	switch f[0] {
 	case "add":
 		// AddFunctionType(heartbeat) initialises the data and starts the heartbeat
-		if len(w.f.Functions()) > 0 {
+		if w.added {
 			return true
 		}
+		w.added = true
 		x.res.executed = append(x.res.executed, op)
-		w.g0 = hbtGoroutines()
 		if pan := h.Recover(func() { w.f.AddFunctionType(model.FunctionTypeDeviceDiagnosisHeartbeatData, true, false) }); pan != nil {
 			x.panics++
 			x.tainted = true
 			x.res.fail("C16/panic-sequential", fmt.Sprintf("AddFunctionType(heartbeat) panicked: %v", pan))
 		}
 		return x.compare(op, "add", 1, x.seqLines("start")...)
+	case "addentity":
+		// AddEntity does not touch the heartbeat; it decides what RemoveEntity finds in the device's list
+		if w.attached {
+			return true
+		}
+		w.attached = true
+		x.res.executed = append(x.res.executed, op)
+		if pan := h.Recover(func() { w.l.AddEntity(w.e) }); pan != nil {
+			x.panics++
+			x.tainted = true
+			x.res.fail("C16/panic-sequential", fmt.Sprintf("AddEntity panicked: %v", pan))
+		}
+		return x.compare(op, "addentity", -1, "obs")
 	case "start", "stop":
 		if x.live() > 0 && !x.split {
 			return true
+		}
+		if f[0] == "start" && !w.added {
+			return true // precondition: the heartbeat function exists before the heartbeat is started by hand
 		}
 		x.res.executed = append(x.res.executed, op)
 		var pan any
@@ -312,8 +338,11 @@ func (x *hbtRun) exec(op string) bool {
 		}
 		x.res.executed = append(x.res.executed, op)
 		return x.compare(op, "isrunning", -1, "obs")
-	case "gstart", "gstop":
+	case "gstart", "gstop", "gremove":
 		if x.tasks[id] != nil || id == 0 {
+			return true
+		}
+		if f[0] == "gstart" && !w.added {
 			return true
 		}
 		kind := strings.TrimPrefix(f[0], "g")
@@ -322,8 +351,14 @@ func (x *hbtRun) exec(op string) bool {
 			x.noteStart()
 		}
 		call := func() { w.hm.StopHeartbeat() }
-		if kind == "start" {
+		switch kind {
+		case "start":
 			call = func() { _ = w.hm.StartHeartbeat() }
+		case "remove":
+			// RemoveEntity from a goroutine of its own: towards the heartbeat it is a StopHeartbeat
+			kind = "stop"
+			w.attached = false
+			call = func() { w.l.RemoveEntity(w.e) }
 		}
 		if !x.split {
 			// repaired member: the operation is one critical section; run it to its end in a goroutine of its own
@@ -381,16 +416,30 @@ func (x *hbtRun) exec(op string) bool {
 			return x.compare(op, "step:spawn", -1, fmt.Sprintf("startMake %d", id), fmt.Sprintf("startSpawn %d", id))
 		}
 	case "removeentity":
-		if x.live() > 0 {
+		// whatever the device's list says about the entity: towards the heartbeat RemoveEntity is a StopHeartbeat
+		if x.live() > 0 && !x.split {
 			return true
 		}
 		x.res.executed = append(x.res.executed, op)
+		kind := "removeentity:detached"
+		if w.attached {
+			kind = "removeentity:attached"
+		}
+		w.attached = false
 		if pan := h.Recover(func() { w.l.RemoveEntity(w.e) }); pan != nil {
 			x.panics++
 			x.tainted = true
-			x.res.fail("C16/panic-sequential", fmt.Sprintf("RemoveEntity panicked: %v", pan))
+			if strings.Contains(fmt.Sprint(pan), "close of closed channel") {
+				x.res.fail(hbtKeyDouble, fmt.Sprintf("RemoveEntity panicked: %v (its StopHeartbeat and another operation both passed the running check)", pan))
+			} else {
+				x.res.fail("C16/panic-sequential", fmt.Sprintf("RemoveEntity panicked: %v", pan))
+			}
 		}
-		return x.compare(op, "removeentity", 0, x.seqLines("stop")...)
+		want := -1
+		if x.live() == 0 {
+			want = 0
+		}
+		return x.compare(op, kind, want, x.seqLines("stop")...)
 	}
 	return true
 }
@@ -438,18 +487,26 @@ func (x *hbtRun) waitDone(t *hbtTask) {
 // runHbtHistory executes one op list in a fresh world (10 min timeout: no refresh interferes).
 func runHbtHistory(d *h.Driver, split bool, ops []string) *hbtResult {
 	res := &hbtResult{}
-	w := newHbtWorld(10 * time.Minute)
+	w := newHbtWorld(10*time.Minute, false)
+	w.g0 = hbtGoroutines()
 	x := &hbtRun{w: w, d: d, split: split, tasks: map[int]*hbtTask{}, res: res}
 	if d != nil {
 		d.Ask("reset")
 	}
-	ok := x.exec("add")
+	// a history that does not say when the heartbeat function is added starts with the ordinary life cycle
+	explicit := false
+	for _, op := range ops {
+		if op == "add" {
+			explicit = true
+		}
+	}
+	if !explicit {
+		ops = append([]string{"addentity", "add"}, ops...)
+	}
+	ok := true
 	for _, op := range ops {
 		if !ok {
 			break
-		}
-		if op == "add" {
-			continue
 		}
 		ok = x.exec(op)
 	}
@@ -487,11 +544,35 @@ func runHbtHistory(d *h.Driver, split bool, ops []string) *hbtResult {
 
 func genHbtHistory(rng *rand.Rand) []string {
 	var ops []string
+	// life cycle of the entity: the heartbeat function may be added (which starts the heartbeat) before the device
+	// lists the entity, after, or on an entity that was listed and removed again
+	switch x := rng.Intn(100); {
+	case x < 40:
+		ops = []string{"addentity", "add"}
+	case x < 60:
+		ops = []string{"add", "addentity"}
+	case x < 75:
+		ops = []string{"add"}
+	case x < 85:
+		ops = []string{"addentity", "removeentity", "add"}
+	default:
+		ops = []string{"removeentity", "stop", "addentity", "isrunning", "add"}
+	}
 	n := 6 + rng.Intn(18)
 	next := 0
 	var open []int
 	for i := 0; i < n; i++ {
-		switch x := rng.Intn(100); {
+		switch x := rng.Intn(118); {
+		case x >= 100 && x < 110:
+			ops = append(ops, "removeentity")
+		case x >= 110 && x < 115:
+			ops = append(ops, "addentity")
+		case x >= 115:
+			if len(open) < 3 {
+				next++
+				open = append(open, next)
+				ops = append(ops, fmt.Sprintf("gremove %d", next))
+			}
 		case x < 18:
 			ops = append(ops, "start")
 		case x < 36:
@@ -561,6 +642,13 @@ func hbtCorpus() [][]string {
 		{"gstop 1", "step 1", "gstart 2", "step 2", "step 2", "isrunning"},
 		{"gstop 1", "gstart 2", "step 2", "step 1", "step 2"},
 		{"gstop 1", "start", "step 1", "isrunning"}, // a stop that saw the old stream closes the new one
+		// RemoveEntity must stop the heartbeat whatever the device's list says about the entity
+		{"addentity", "add", "removeentity", "isrunning", "start", "isrunning", "removeentity", "isrunning"},
+		{"add", "isrunning", "removeentity", "isrunning"},                             // started before AddEntity was ever called
+		{"add", "addentity", "removeentity", "removeentity", "start", "removeentity"}, // repeated
+		{"addentity", "add", "removeentity", "addentity", "start", "removeentity", "start", "stop", "removeentity"},
+		{"removeentity", "addentity", "add", "stop", "removeentity", "start", "gremove 1", "step 1", "isrunning"},
+		{"addentity", "add", "gremove 1", "gstop 2", "step 1", "step 2"}, // RemoveEntity and StopHeartbeat overlapping
 	}
 }
 
@@ -602,6 +690,16 @@ type hbtNote struct {
 type hbtWriter struct {
 	mu    sync.Mutex
 	notes []hbtNote
+
+	// a writer that can be held: when armed, the next heartbeat notification blocks inside
+	// WriteShipMessageWithPayload (the refresh is then "in flight" inside SetData) until released
+	armed   int32
+	held    chan struct{}
+	release chan struct{}
+}
+
+func newHbtWriter() *hbtWriter {
+	return &hbtWriter{held: make(chan struct{}, 1), release: make(chan struct{})}
 }
 
 func (w *hbtWriter) WriteShipMessageWithPayload(m []byte) {
@@ -630,73 +728,104 @@ func (w *hbtWriter) WriteShipMessageWithPayload(m []byte) {
 	w.mu.Lock()
 	w.notes = append(w.notes, n)
 	w.mu.Unlock()
+	if atomic.CompareAndSwapInt32(&w.armed, 1, 0) {
+		w.held <- struct{}{}
+		<-w.release
+	}
+}
+
+func (w *hbtWriter) count() int {
+	w.mu.Lock()
+	defer w.mu.Unlock()
+	return len(w.notes)
 }
 
 type hbtSample struct {
-	t   time.Time
-	ctr uint64
+	t       time.Time
+	ctr     uint64
+	timeout time.Duration
 }
 
 type hbtSpan struct{ a, b time.Time }
 
-// hbtRealtime runs one live heartbeat with the given announced timeout through
-// add -> ticks -> 3 restarts -> ticks -> stop -> silence -> start -> ticks -> RemoveEntity -> silence
-// and judges the trace. Returns the failures (key, detail), the median refresh gap and a description.
-func hbtRealtime(T time.Duration, ticks int) (fails [][2]string, median time.Duration, announced time.Duration, desc string) {
+// hbtSubscribe connects a peer with a device-diagnosis client feature and lets it subscribe to the feature.
+func hbtSubscribe(w *hbtWorld, ski, dev string, wr *hbtWriter) {
+	w.l.SetupRemoteDevice(ski, wr)
+	rdev := w.l.RemoteDeviceForSki(ski)
+	inject := func(d model.DatagramType) {
+		b, _ := json.Marshal(model.Datagram{Datagram: d})
+		_, _ = rdev.HandleSpineMesssage(b)
+	}
+	ft, role := model.FeatureTypeTypeDeviceDiagnosis, model.RoleTypeClient
+	nt, nr := model.FeatureTypeTypeNodeManagement, model.RoleTypeSpecial
+	dd := &model.NodeManagementDetailedDiscoveryDataType{
+		DeviceInformation: &model.NodeManagementDetailedDiscoveryDeviceInformationType{Description: &model.NetworkManagementDeviceDescriptionDataType{DeviceAddress: &model.DeviceAddressType{Device: util.Ptr(model.AddressDeviceType(dev))}}},
+		EntityInformation: []model.NodeManagementDetailedDiscoveryEntityInformationType{
+			{Description: &model.NetworkManagementEntityDescriptionDataType{EntityAddress: &model.EntityAddressType{Entity: spine.NewAddressEntityType([]uint{0})}, EntityType: util.Ptr(model.EntityTypeTypeDeviceInformation)}},
+			{Description: &model.NetworkManagementEntityDescriptionDataType{EntityAddress: &model.EntityAddressType{Entity: spine.NewAddressEntityType([]uint{1})}, EntityType: util.Ptr(model.EntityTypeTypeEVSE)}}},
+		FeatureInformation: []model.NodeManagementDetailedDiscoveryFeatureInformationType{
+			{Description: &model.NetworkManagementFeatureDescriptionDataType{FeatureAddress: h.FA(dev, []uint{0}, 0), FeatureType: &nt, Role: &nr}},
+			{Description: &model.NetworkManagementFeatureDescriptionDataType{FeatureAddress: h.FA(dev, []uint{1}, 1), FeatureType: &ft, Role: &role}}},
+	}
+	cl := model.CmdClassifierTypeReply
+	inject(model.DatagramType{Header: model.HeaderType{AddressSource: h.FA(dev, []uint{0}, 0), AddressDestination: h.FA("HEMS", []uint{0}, 0), MsgCounter: util.Ptr(model.MsgCounterType(1)), MsgCounterReference: util.Ptr(model.MsgCounterType(1)), CmdClassifier: &cl}, Payload: model.PayloadType{Cmd: []model.CmdType{{NodeManagementDetailedDiscoveryData: dd}}}})
+	cc := model.CmdClassifierTypeCall
+	inject(model.DatagramType{Header: model.HeaderType{AddressSource: h.FA(dev, []uint{0}, 0), AddressDestination: h.FA("HEMS", []uint{0}, 0), MsgCounter: util.Ptr(model.MsgCounterType(2)), CmdClassifier: &cc}, Payload: model.PayloadType{Cmd: []model.CmdType{{NodeManagementSubscriptionRequestCall: spine.NewNodeManagementSubscriptionRequestCallType(h.FA(dev, []uint{1}, 1), w.f.Address(), model.FeatureTypeTypeDeviceDiagnosis)}}}})
+}
+
+// the life of a live heartbeat, as a script of operations and waits
+var (
+	// the ordinary life, then a heartbeat started again on the removed entity and RemoveEntity once more
+	hbtScriptAttached = []string{"add", "run", "restart", "run", "stop", "silence", "start", "run", "remove", "silence", "start", "run", "remove", "silence"}
+	// ... and the removed entity added again
+	hbtScriptReadd = []string{"addentity", "start", "run", "remove", "silence"}
+	// the heartbeat function is added - which starts the heartbeat - on an entity the device has never listed
+	hbtScriptDetached = []string{"add", "run", "remove", "silence", "start", "run", "stop", "silence", "addentity", "start", "run", "remove", "remove", "silence"}
+)
+
+type hbtEv struct {
+	op string
+	s  hbtSpan
+}
+
+// hbtRealtime runs one live heartbeat with the given configured timeout through the script and judges the trace:
+// after every operation that leaves the heartbeat running a refresh at least every announced timeout, after every
+// StopHeartbeat / RemoveEntity - whatever the device's list says about the entity - at most one more refresh and
+// IsHeartbeatRunning false. attach = the entity is added to the device (and two peers subscribe) before the script.
+// Returns the failures (key, detail), the median refresh gap, the announced timeout and a description.
+func hbtRealtime(T time.Duration, ticks int, attach bool, script []string) (fails [][2]string, median time.Duration, announced time.Duration, desc string) {
 	P := T
 	if T > 2*time.Second {
 		P = T - 2*time.Second
 	}
 	slack := 100*time.Millisecond + T/4
+	what := fmt.Sprintf("timeout %v", T)
+	if !attach {
+		what += ", entity not added to the device"
+	}
 	fail := func(key, detail string) {
-		fails = append(fails, [2]string{key, fmt.Sprintf("timeout %v: %s", T, detail)})
+		fails = append(fails, [2]string{key, what + ": " + detail})
 	}
 	id := atomic.AddInt64(&hbtWorldSeq, 1)
-	w := newHbtWorld(T)
-	const nSub = 2
-	var wr [nSub]*hbtWriter
-	for p := 0; p < nSub; p++ {
-		wr[p] = &hbtWriter{}
-		ski := fmt.Sprintf("hbt%d-%d", id, p)
-		dev := fmt.Sprintf("dev%d", p)
-		w.l.SetupRemoteDevice(ski, wr[p])
-		rdev := w.l.RemoteDeviceForSki(ski)
-		inject := func(d model.DatagramType) {
-			b, _ := json.Marshal(model.Datagram{Datagram: d})
-			_, _ = rdev.HandleSpineMesssage(b)
+	w := newHbtWorld(T, attach)
+	nSub := 0
+	var wr []*hbtWriter
+	if attach {
+		nSub = 2
+		for p := 0; p < nSub; p++ {
+			wr = append(wr, newHbtWriter())
+			hbtSubscribe(w, fmt.Sprintf("hbt%d-%d", id, p), fmt.Sprintf("dev%d", p), wr[p])
 		}
-		ft, role := model.FeatureTypeTypeDeviceDiagnosis, model.RoleTypeClient
-		nt, nr := model.FeatureTypeTypeNodeManagement, model.RoleTypeSpecial
-		dd := &model.NodeManagementDetailedDiscoveryDataType{
-			DeviceInformation: &model.NodeManagementDetailedDiscoveryDeviceInformationType{Description: &model.NetworkManagementDeviceDescriptionDataType{DeviceAddress: &model.DeviceAddressType{Device: util.Ptr(model.AddressDeviceType(dev))}}},
-			EntityInformation: []model.NodeManagementDetailedDiscoveryEntityInformationType{
-				{Description: &model.NetworkManagementEntityDescriptionDataType{EntityAddress: &model.EntityAddressType{Entity: spine.NewAddressEntityType([]uint{0})}, EntityType: util.Ptr(model.EntityTypeTypeDeviceInformation)}},
-				{Description: &model.NetworkManagementEntityDescriptionDataType{EntityAddress: &model.EntityAddressType{Entity: spine.NewAddressEntityType([]uint{1})}, EntityType: util.Ptr(model.EntityTypeTypeEVSE)}}},
-			FeatureInformation: []model.NodeManagementDetailedDiscoveryFeatureInformationType{
-				{Description: &model.NetworkManagementFeatureDescriptionDataType{FeatureAddress: h.FA(dev, []uint{0}, 0), FeatureType: &nt, Role: &nr}},
-				{Description: &model.NetworkManagementFeatureDescriptionDataType{FeatureAddress: h.FA(dev, []uint{1}, 1), FeatureType: &ft, Role: &role}}},
+		if n := len(w.l.SubscriptionManager().SubscriptionsOnFeature(*w.f.Address())); n != nSub {
+			fail("C16/world", fmt.Sprintf("%d subscriptions on the device-diagnosis feature, expected %d", n, nSub))
+			return
 		}
-		cl := model.CmdClassifierTypeReply
-		inject(model.DatagramType{Header: model.HeaderType{AddressSource: h.FA(dev, []uint{0}, 0), AddressDestination: h.FA("HEMS", []uint{0}, 0), MsgCounter: util.Ptr(model.MsgCounterType(1)), MsgCounterReference: util.Ptr(model.MsgCounterType(1)), CmdClassifier: &cl}, Payload: model.PayloadType{Cmd: []model.CmdType{{NodeManagementDetailedDiscoveryData: dd}}}})
-		cc := model.CmdClassifierTypeCall
-		inject(model.DatagramType{Header: model.HeaderType{AddressSource: h.FA(dev, []uint{0}, 0), AddressDestination: h.FA("HEMS", []uint{0}, 0), MsgCounter: util.Ptr(model.MsgCounterType(2)), CmdClassifier: &cc}, Payload: model.PayloadType{Cmd: []model.CmdType{{NodeManagementSubscriptionRequestCall: spine.NewNodeManagementSubscriptionRequestCallType(h.FA(dev, []uint{1}, 1), w.f.Address(), model.FeatureTypeTypeDeviceDiagnosis)}}}})
-	}
-	if n := len(w.l.SubscriptionManager().SubscriptionsOnFeature(*w.f.Address())); n != nSub {
-		fail("C16/world", fmt.Sprintf("%d subscriptions on the device-diagnosis feature, expected %d", n, nSub))
-		return
 	}
 	// sampler of the feature's own data
 	var smu sync.Mutex
 	var samples []hbtSample
 	stopSampler := make(chan struct{})
 	samplerDone := make(chan struct{})
-	ctrOf := func() (uint64, bool) {
-		d, _ := w.f.DataCopy(model.FunctionTypeDeviceDiagnosisHeartbeatData).(*model.DeviceDiagnosisHeartbeatDataType)
-		if d == nil || d.HeartbeatCounter == nil {
-			return 0, false
-		}
-		return *d.HeartbeatCounter, true
-	}
 	go func() {
 		defer close(samplerDone)
 		var last uint64
@@ -707,28 +836,20 @@ func hbtRealtime(T time.Duration, ticks int) (fails [][2]string, median time.Dur
 				return
 			default:
 			}
-			if c, ok := ctrOf(); ok && (!have || c != last) {
+			d, _ := w.f.DataCopy(model.FunctionTypeDeviceDiagnosisHeartbeatData).(*model.DeviceDiagnosisHeartbeatDataType)
+			if d != nil && d.HeartbeatCounter != nil && (!have || *d.HeartbeatCounter != last) {
+				sm := hbtSample{t: time.Now(), ctr: *d.HeartbeatCounter}
+				if d.HeartbeatTimeout != nil {
+					sm.timeout, _ = d.HeartbeatTimeout.GetTimeDuration()
+				}
 				smu.Lock()
-				samples = append(samples, hbtSample{time.Now(), c})
+				samples = append(samples, sm)
 				smu.Unlock()
-				last, have = c, true
+				last, have = sm.ctr, true
 			}
 			time.Sleep(time.Millisecond)
 		}
 	}()
-	running := func(want bool, when string) {
-		if got := w.hm.IsHeartbeatRunning(); got != want {
-			fail("C16/is-running-wrong", fmt.Sprintf("IsHeartbeatRunning = %v %s", got, when))
-		}
-	}
-	var quiet []hbtSpan // spans in which a gap between refreshes proves nothing
-	span := func(f func()) hbtSpan {
-		a := time.Now()
-		if pan := h.Recover(f); pan != nil {
-			fail("C16/panic-sequential", fmt.Sprintf("a heartbeat operation called with no other operation in flight panicked: %v", pan))
-		}
-		return hbtSpan{a, time.Now()}
-	}
 	// a running span must be long enough to judge "a refresh at least every announced timeout"
 	run := time.Duration(ticks)*P + P/2
 	if min := T + slack + 200*time.Millisecond; run < min {
@@ -736,46 +857,61 @@ func hbtRealtime(T time.Duration, ticks int) (fails [][2]string, median time.Dur
 	}
 	silence := 2*P + 150*time.Millisecond
 
-	add := span(func() { w.f.AddFunctionType(model.FunctionTypeDeviceDiagnosisHeartbeatData, true, false) })
-	running(true, "after AddFunctionType(heartbeat)")
-	time.Sleep(run)
-	restart := span(func() {
-		for i := 0; i < 3; i++ {
-			_ = w.hm.StartHeartbeat()
+	var evs []hbtEv
+	for _, op := range script {
+		var f func()
+		wantRunning := true
+		switch op {
+		case "run":
+			time.Sleep(run)
+			continue
+		case "silence":
+			time.Sleep(silence)
+			continue
+		case "add":
+			f = func() { w.f.AddFunctionType(model.FunctionTypeDeviceDiagnosisHeartbeatData, true, false) }
+		case "restart":
+			f = func() {
+				for i := 0; i < 3; i++ {
+					_ = w.hm.StartHeartbeat()
+				}
+			}
+		case "start":
+			f = func() { _ = w.hm.StartHeartbeat() }
+		case "stop":
+			f, wantRunning = func() { w.hm.StopHeartbeat() }, false
+		case "remove":
+			f, wantRunning = func() { w.l.RemoveEntity(w.e) }, false
+		case "addentity":
+			f = func() { w.l.AddEntity(w.e) }
+			wantRunning = w.hm.IsHeartbeatRunning()
 		}
-	})
-	time.Sleep(run)
-	running(true, "after three restarts")
-	stop := span(func() { w.hm.StopHeartbeat() })
-	running(false, "after StopHeartbeat")
-	time.Sleep(silence)
-	again := span(func() { _ = w.hm.StartHeartbeat() })
-	running(true, "after starting again")
-	time.Sleep(run)
-	remove := span(func() { w.l.RemoveEntity(w.e) })
-	running(false, "after RemoveEntity")
-	time.Sleep(silence)
+		a := time.Now()
+		if pan := h.Recover(f); pan != nil {
+			fail("C16/panic-sequential", fmt.Sprintf("%s, called with no other operation in flight, panicked: %v", op, pan))
+		}
+		evs = append(evs, hbtEv{op, hbtSpan{a, time.Now()}})
+		if got := w.hm.IsHeartbeatRunning(); got != wantRunning {
+			key := "C16/is-running-wrong"
+			if op == "remove" {
+				key = "C16/heartbeat-survives-remove-entity"
+			}
+			fail(key, fmt.Sprintf("IsHeartbeatRunning = %v after operation %d of the script (%s) returned", got, len(evs), op))
+		}
+	}
 	close(stopSampler)
 	<-samplerDone
 	end := time.Now()
-	quiet = []hbtSpan{add, restart, {stop.a, again.b}, {remove.a, end}}
-	disturbed := func(a, b time.Time) bool {
-		for _, q := range quiet {
-			if q.a.Before(b) && a.Before(q.b) {
-				return true
-			}
-		}
-		return false
-	}
 
+	smu.Lock()
+	ss := append([]hbtSample{}, samples...)
+	smu.Unlock()
 	// the reference is the timeout the data announces (the duration text has a resolution of 100 ms: an entity
 	// configured with 250 ms announces - and refreshes every - 200 ms)
 	configured := T
-	wr[0].mu.Lock()
-	if len(wr[0].notes) > 0 {
-		T = wr[0].notes[0].timeout
+	if len(ss) > 0 {
+		T = ss[0].timeout
 	}
-	wr[0].mu.Unlock()
 	if T <= 0 {
 		fail("C16/announced-timeout-wrong", fmt.Sprintf("the heartbeat data announces the timeout %v", T))
 		return
@@ -784,16 +920,116 @@ func hbtRealtime(T time.Duration, ticks int) (fails [][2]string, median time.Dur
 		fail("C16/announced-timeout-wrong", fmt.Sprintf("the heartbeat data announces %v, the entity was created with %v", T, configured))
 	}
 	slack = 100*time.Millisecond + T/4
-	var gaps []time.Duration
+
+	// running windows (from the return of an operation that leaves the heartbeat running to the next operation on the
+	// heartbeat) and silent windows (from the return of StopHeartbeat / RemoveEntity to the next start)
+	type window struct {
+		from, to time.Time
+		after    string
+		n        int // position in the script's operations
+	}
+	var runs, silences []window
+	var firstRemove time.Time
+	for i, e := range evs {
+		if e.op == "addentity" {
+			continue
+		}
+		to := end
+		for _, nx := range evs[i+1:] {
+			if nx.op != "addentity" {
+				to = nx.s.a
+				break
+			}
+		}
+		wdw := window{e.s.b, to, e.op, i + 1}
+		if e.op == "stop" || e.op == "remove" {
+			silences = append(silences, wdw)
+		} else {
+			runs = append(runs, wdw)
+		}
+		if e.op == "remove" && firstRemove.IsZero() {
+			firstRemove = e.s.a
+		}
+	}
+	if firstRemove.IsZero() {
+		firstRemove = end
+	}
+	// judge a sequence of refresh instants against the windows
+	var gapsAll []time.Duration
+	judge := func(who string, times []time.Time, ctrs []uint64, wdws []window, collect bool) {
+		for _, wd := range wdws {
+			var in []int
+			for i, t := range times {
+				if t.After(wd.from) && t.Before(wd.to) {
+					in = append(in, i)
+				}
+			}
+			if len(in) == 0 || times[in[0]].Sub(wd.from) > T+slack {
+				fail("C16/period-exceeds-timeout", fmt.Sprintf("%s: no refresh within %v after operation %d (%s) returned", who, T+slack, wd.n, wd.after))
+				continue
+			}
+			for k := 1; k < len(in); k++ {
+				g := times[in[k]].Sub(times[in[k-1]])
+				if collect {
+					gapsAll = append(gapsAll, g)
+				}
+				if g > T+slack {
+					fail("C16/period-exceeds-timeout", fmt.Sprintf("%s: %v between the refreshes %d and %d (timeout %v + slack %v)", who, g, ctrs[in[k-1]], ctrs[in[k]], T, slack))
+				}
+			}
+			if wd.to.Sub(times[in[len(in)-1]]) > T+slack {
+				fail("C16/period-exceeds-timeout", fmt.Sprintf("%s: no refresh in the last %v of the running span that began with operation %d (%s)", who, T+slack, wd.n, wd.after))
+			}
+		}
+	}
+	final := func(who string, times []time.Time, grace time.Duration) {
+		for _, wd := range silences {
+			late := 0
+			for _, t := range times {
+				if t.After(wd.from.Add(grace)) && t.Before(wd.to) {
+					late++
+				}
+			}
+			if late > 1 {
+				key := "C16/refresh-after-stop"
+				if wd.after == "remove" {
+					key = "C16/refresh-after-remove-entity"
+				}
+				fail(key, fmt.Sprintf("%s: %d refreshes after operation %d of the script (%s) had returned", who, late, wd.n, wd.after))
+			}
+		}
+	}
+	// the feature's own data: strictly increasing, periodic in every running window, final in every silent one
+	var st []time.Time
+	var sc []uint64
+	for i, sm := range ss {
+		st, sc = append(st, sm.t), append(sc, sm.ctr)
+		if i > 0 && sm.ctr <= ss[i-1].ctr {
+			fail("C16/counter-not-increasing", fmt.Sprintf("the feature's heartbeat counter went from %d to %d", ss[i-1].ctr, sm.ctr))
+		}
+		if sm.timeout != T {
+			fail("C16/announced-timeout-wrong", fmt.Sprintf("counter %d announces the timeout %v, the first refresh announced %v", sm.ctr, sm.timeout, T))
+			break
+		}
+	}
+	judge("the feature's data", st, sc, runs, true)
+	final("the feature's data", st, 2*time.Millisecond)
+	gaps := append([]time.Duration{}, gapsAll...)
+	// every subscriber: each refresh up to the first RemoveEntity notified exactly once (counters 1, 2, 3, ...),
+	// current timestamp, periodic (windows before the first RemoveEntity), final in every silent window
 	for p := 0; p < nSub; p++ {
 		wr[p].mu.Lock()
 		notes := append([]hbtNote{}, wr[p].notes...)
 		wr[p].mu.Unlock()
 		who := fmt.Sprintf("subscriber %d", p)
-		// every refresh up to RemoveEntity is notified exactly once: counters 1, 2, 3, ... without gap or repeat
+		var nt []time.Time
+		var nc []uint64
 		var before []hbtNote
+		notified := map[uint64]bool{}
 		for _, n := range notes {
-			if n.t.Before(remove.a) {
+			nt, nc = append(nt, n.t), append(nc, n.ctr)
+			notified[n.ctr] = true
+			if n.t.Before(firstRemove) {
 				before = append(before, n)
 			}
 		}
@@ -802,6 +1038,12 @@ func hbtRealtime(T time.Duration, ticks int) (fails [][2]string, median time.Dur
 				fail("C16/counter-not-increasing", fmt.Sprintf("%s received counter %d after %d", who, n.ctr, before[i-1].ctr))
 			} else if n.ctr != uint64(i+1) {
 				fail("C16/refresh-not-notified-once", fmt.Sprintf("%s: notification %d carries counter %d (counters received: %s)", who, i+1, n.ctr, hbtCtrs(before)))
+				break
+			}
+		}
+		for _, sm := range ss {
+			if sm.t.Before(firstRemove) && !notified[sm.ctr] {
+				fail("C16/refresh-not-notified-once", fmt.Sprintf("the feature's data carried counter %d, which no notification to %s carried", sm.ctr, who))
 				break
 			}
 		}
@@ -815,103 +1057,97 @@ func hbtRealtime(T time.Duration, ticks int) (fails [][2]string, median time.Dur
 				break
 			}
 		}
-		// period: undisturbed gaps, the first refresh after each start, the last before each end of a running span
-		for i := 1; i < len(notes); i++ {
-			if disturbed(notes[i-1].t, notes[i].t) {
-				continue
-			}
-			g := notes[i].t.Sub(notes[i-1].t)
-			if p == 0 {
-				gaps = append(gaps, g)
-			}
-			if g > T+slack {
-				fail("C16/period-exceeds-timeout", fmt.Sprintf("%s: %v between the refreshes %d and %d (timeout %v + slack %v)", who, g, notes[i-1].ctr, notes[i].ctr, T, slack))
+		var early []window
+		for _, wd := range runs {
+			if !wd.to.After(firstRemove) {
+				early = append(early, wd)
 			}
 		}
-		firstAfter := func(t time.Time) (hbtNote, bool) {
-			for _, n := range notes {
-				if n.t.After(t) {
-					return n, true
-				}
-			}
-			return hbtNote{}, false
-		}
-		lastBefore := func(t time.Time) (hbtNote, bool) {
-			var l hbtNote
-			ok := false
-			for _, n := range notes {
-				if n.t.Before(t) {
-					l, ok = n, true
-				}
-			}
-			return l, ok
-		}
-		for _, st := range []struct {
-			s    hbtSpan
-			next time.Time
-			what string
-		}{{add, restart.a, "AddFunctionType"}, {restart, stop.a, "the restarts"}, {again, remove.a, "the second start"}} {
-			n, ok := firstAfter(st.s.b)
-			if !ok || n.t.After(st.next) || n.t.Sub(st.s.b) > T+slack {
-				fail("C16/period-exceeds-timeout", fmt.Sprintf("%s: no refresh within %v after %s returned", who, T+slack, st.what))
-			}
-			if l, ok := lastBefore(st.next); !ok || st.next.Sub(l.t) > T+slack {
-				fail("C16/period-exceeds-timeout", fmt.Sprintf("%s: no refresh in the last %v of the running span that began with %s", who, T+slack, st.what))
-			}
-		}
-		// stop is final: after StopHeartbeat returned at most one refresh, until the next start
-		late := 0
-		for _, n := range notes {
-			if n.t.After(stop.b) && n.t.Before(again.a) {
-				late++
-			}
-		}
-		if late > 1 {
-			fail("C16/refresh-after-stop", fmt.Sprintf("%s received %d refreshes after StopHeartbeat had returned", who, late))
-		}
-	}
-	// the feature's own data: strictly increasing, every value notified, final after stop / RemoveEntity
-	smu.Lock()
-	ss := append([]hbtSample{}, samples...)
-	smu.Unlock()
-	wr[0].mu.Lock()
-	notified := map[uint64]bool{}
-	for _, n := range wr[0].notes {
-		notified[n.ctr] = true
-	}
-	wr[0].mu.Unlock()
-	lateStop, lateRemove := 0, 0
-	for i, s := range ss {
-		if i > 0 && s.ctr <= ss[i-1].ctr {
-			fail("C16/counter-not-increasing", fmt.Sprintf("the feature's heartbeat counter went from %d to %d", ss[i-1].ctr, s.ctr))
-		}
-		if s.t.Before(remove.a) && !notified[s.ctr] {
-			fail("C16/refresh-not-notified-once", fmt.Sprintf("the feature's data carried counter %d, which no notification to subscriber 0 carried", s.ctr))
-		}
-		if s.t.After(stop.b.Add(2*time.Millisecond)) && s.t.Before(again.a) {
-			lateStop++
-		}
-		if s.t.After(remove.b.Add(2 * time.Millisecond)) {
-			lateRemove++
-		}
-	}
-	if lateStop > 1 {
-		fail("C16/refresh-after-stop", fmt.Sprintf("the data changed %d times after StopHeartbeat had returned", lateStop))
-	}
-	if lateRemove > 1 {
-		fail("C16/refresh-after-remove-entity", fmt.Sprintf("the data changed %d times after RemoveEntity had returned", lateRemove))
+		judge(who, nt, nc, early, false)
+		final(who, nt, 0)
 	}
 	sort.Slice(gaps, func(i, j int) bool { return gaps[i] < gaps[j] })
 	if len(gaps) > 0 {
 		median = gaps[len(gaps)/2]
 	}
 	announced = T
-	desc = fmt.Sprintf("configured %v, announced %v: %d refreshes, %d undisturbed gaps, median %v, max %v", configured, T, len(ss), len(gaps), median, func() time.Duration {
-		if len(gaps) == 0 {
-			return 0
+	max := time.Duration(0)
+	if len(gaps) > 0 {
+		max = gaps[len(gaps)-1]
+	}
+	desc = fmt.Sprintf("configured %v, announced %v, added to the device %v: %d refreshes, %d gaps inside running spans, median %v, max %v", configured, T, attach, len(ss), len(gaps), median, max)
+	return
+}
+
+// hbtHeld: a refresh held in flight (the subscriber's writer blocks inside SetData -> Notify).
+//   - StopHeartbeat while the refresh is in flight: after the release exactly that refresh completes, then silence;
+//   - StartHeartbeat (a restart) while a refresh of the old stream is in flight: after the release the old stream ends
+//     and one stream refreshes - never two. Runs alone (heartbeat goroutines are counted).
+func hbtHeld(T time.Duration) (fails [][2]string) {
+	fail := func(key, detail string) {
+		fails = append(fails, [2]string{key, fmt.Sprintf("timeout %v, refresh held in flight: %s", T, detail)})
+	}
+	id := atomic.AddInt64(&hbtWorldSeq, 1)
+	w := newHbtWorld(T, true)
+	wr := newHbtWriter()
+	hbtSubscribe(w, fmt.Sprintf("hbt%d-h", id), "devh", wr)
+	w.g0 = hbtGoroutines()
+	streams := func(want int) int {
+		n := 0
+		for t0 := time.Now(); time.Since(t0) < 200*time.Millisecond; {
+			if n = runtime.NumGoroutine() - w.g0; n == want {
+				break
+			}
+			time.Sleep(100 * time.Microsecond)
 		}
-		return gaps[len(gaps)-1]
-	}())
+		return n
+	}
+	hold := func() bool {
+		atomic.StoreInt32(&wr.armed, 1)
+		select {
+		case <-wr.held:
+			return true
+		case <-time.After(T + 2*time.Second):
+			atomic.StoreInt32(&wr.armed, 0)
+			fail("C16/period-exceeds-timeout", "no refresh arrived at the subscriber to be held")
+			return false
+		}
+	}
+	if pan := h.Recover(func() { w.f.AddFunctionType(model.FunctionTypeDeviceDiagnosisHeartbeatData, true, false) }); pan != nil {
+		fail("C16/panic-sequential", fmt.Sprintf("AddFunctionType(heartbeat) panicked: %v", pan))
+		return
+	}
+	// (1) a restart while a refresh of the old stream is in flight
+	if !hold() {
+		return
+	}
+	_ = w.hm.StartHeartbeat()
+	wr.release <- struct{}{}
+	if n := streams(1); n != 1 {
+		fail("C16/restart-during-refresh-leaves-two-streams", fmt.Sprintf("StartHeartbeat was called while a refresh of the running stream was in flight; after the refresh completed %d heartbeat goroutines run", n))
+	}
+	c0 := wr.count()
+	time.Sleep(6 * T)
+	if got := wr.count() - c0; got > 8 {
+		fail("C16/restart-during-refresh-leaves-two-streams", fmt.Sprintf("%d refreshes in six periods after the restart (two streams refresh side by side)", got))
+	}
+	// (2) a stop while a refresh is in flight: that refresh completes, nothing else
+	if !hold() {
+		return
+	}
+	w.hm.StopHeartbeat()
+	c1 := wr.count() // includes the held notification
+	wr.release <- struct{}{}
+	time.Sleep(3 * T)
+	if got := wr.count() - c1; got > 1 {
+		fail("C16/refresh-after-stop", fmt.Sprintf("%d refreshes were notified after StopHeartbeat had returned with one refresh in flight", got+1))
+	}
+	if n := streams(0); n != 0 {
+		fail("C16/stream-survives-stop", fmt.Sprintf("%d heartbeat goroutine(s) run after StopHeartbeat returned and the refresh in flight completed", n))
+	}
+	if w.hm.IsHeartbeatRunning() {
+		fail("C16/is-running-wrong", "IsHeartbeatRunning = true after StopHeartbeat")
+	}
 	return
 }
 
@@ -926,7 +1162,7 @@ func hbtCtrs(ns []hbtNote) string {
 // ---------- part C: unparked concurrency
 
 func hbtHammer(rng *rand.Rand, goroutines, opsEach int) (panics []string, streamsLeft int, running bool) {
-	w := newHbtWorld(10 * time.Minute)
+	w := newHbtWorld(10*time.Minute, true)
 	w.g0 = hbtGoroutines()
 	w.f.AddFunctionType(model.FunctionTypeDeviceDiagnosisHeartbeatData, true, false)
 	var plans [][]int
@@ -1004,12 +1240,36 @@ func TestHeartbeat(t *testing.T) {
 
 	if ops := h.ReplayOps("heartbeat"); ops != nil {
 		if len(ops) > 0 && strings.HasPrefix(ops[0], "realtime ") {
-			ms, _ := strconv.Atoi(strings.Fields(ops[0])[1])
-			fails, _, _, desc := hbtRealtime(time.Duration(ms)*time.Millisecond, 3)
+			// realtime <ms> <ticks> <attached|detached> <script,comma,separated>
+			f := strings.Fields(ops[0])
+			ms, _ := strconv.Atoi(f[1])
+			ticks, attach, script := 3, true, hbtScriptAttached
+			if len(f) >= 5 {
+				ticks, _ = strconv.Atoi(f[2])
+				attach = f[3] == "attached"
+				script = strings.Split(f[4], ",")
+			}
+			fails, _, _, desc := hbtRealtime(time.Duration(ms)*time.Millisecond, ticks, attach, script)
+			r.Eval("realtime", "")
 			for _, f := range fails {
 				r.SpecFail(f[0], ops, f[1])
 			}
+			if len(fails) == 0 {
+				r.Traces++
+			}
 			r.Sample(desc)
+			return
+		}
+		if len(ops) > 0 && strings.HasPrefix(ops[0], "held ") {
+			ms, _ := strconv.Atoi(strings.Fields(ops[0])[1])
+			fails := hbtHeld(time.Duration(ms) * time.Millisecond)
+			r.Eval("held", "")
+			for _, f := range fails {
+				r.SpecFail(f[0], ops, f[1])
+			}
+			if len(fails) == 0 {
+				r.Traces++
+			}
 			return
 		}
 		stopSplit, startSplit := hbtProbe(r)
@@ -1050,13 +1310,37 @@ func TestHeartbeat(t *testing.T) {
 		merge(runHbtHistory(d, split, ops), strings.Join(ops, "; "))
 	}
 
+	// ----- a refresh held in flight (alone: heartbeat goroutines are counted)
+	for _, ms := range []int{100, 300} {
+		op := []string{fmt.Sprintf("held %d", ms)}
+		fails := hbtHeld(time.Duration(ms) * time.Millisecond)
+		if len(fails) > 0 {
+			first := fmt.Sprint(fails)
+			if fails = hbtHeld(time.Duration(ms) * time.Millisecond); len(fails) == 0 {
+				r.Info["held_first_run"] = first
+			}
+		}
+		r.Eval("held", "")
+		for _, f := range fails {
+			r.SpecFail(f[0], op, f[1])
+		}
+		if len(fails) == 0 {
+			r.Traces++
+		}
+	}
+
 	// ----- part B: live heartbeats, all timeouts concurrently
 	type rt struct {
 		ms, ticks int
+		attach    bool
+		script    []string
 	}
-	plan := []rt{{100, 6}, {250, 4}, {1000, 2}, {2300, 4}}
+	full := append(append([]string{}, hbtScriptAttached...), hbtScriptReadd...)
+	plan := []rt{{100, 6, true, full}, {250, 4, true, hbtScriptAttached}, {1000, 2, true, hbtScriptAttached}, {2300, 4, true, hbtScriptAttached},
+		{100, 6, false, hbtScriptDetached}, {300, 4, false, hbtScriptDetached}}
 	if h.Tier() == "thorough" {
-		plan = append(plan, rt{150, 8}, rt{500, 4}, rt{2000, 2}, rt{2100, 10}, rt{4000, 2}, rt{6000, 2})
+		plan = append(plan, rt{150, 8, true, full}, rt{500, 4, true, full}, rt{2000, 2, true, hbtScriptAttached}, rt{2100, 10, true, full},
+			rt{4000, 2, true, hbtScriptAttached}, rt{6000, 2, true, hbtScriptAttached}, rt{1000, 2, false, hbtScriptDetached}, rt{2300, 4, false, hbtScriptDetached})
 	}
 	var wg sync.WaitGroup
 	var bmu sync.Mutex
@@ -1066,10 +1350,10 @@ func TestHeartbeat(t *testing.T) {
 		go func(p rt) {
 			defer wg.Done()
 			T := time.Duration(p.ms) * time.Millisecond
-			fails, median, announced, desc := hbtRealtime(T, p.ticks)
+			fails, median, announced, desc := hbtRealtime(T, p.ticks, p.attach, p.script)
 			if len(fails) > 0 {
 				// timer-dependent: once more in a fresh world before it counts
-				f2, m2, a2, d2 := hbtRealtime(T, p.ticks)
+				f2, m2, a2, d2 := hbtRealtime(T, p.ticks, p.attach, p.script)
 				bmu.Lock()
 				flakes = append(flakes, fmt.Sprintf("first run of timeout %v: %v", T, fails))
 				bmu.Unlock()
@@ -1078,7 +1362,7 @@ func TestHeartbeat(t *testing.T) {
 			bmu.Lock()
 			defer bmu.Unlock()
 			descs = append(descs, desc)
-			op := []string{fmt.Sprintf("realtime %d", p.ms)}
+			op := []string{fmt.Sprintf("realtime %d %d %s %s", p.ms, p.ticks, map[bool]string{true: "attached", false: "detached"}[p.attach], strings.Join(p.script, ","))}
 			for _, f := range fails {
 				r.SpecFail(f[0], op, f[1])
 			}
